@@ -53,4 +53,6 @@ VARIANTS += [
     M('C01', 'tdda-text-split-with-splitlines', E(BS, "s.split('\\n')", "s.splitlines()"), rule='C01-STRIP', key='strip_lines'),
     M('C01', 'characters-seen-capped-with-strings', E(RX, "                        n_strings[i] = len(frag_strings[i])\n                    frag_chars[i] = frag_chars[i].union(set(list(g)))", "                        n_strings[i] = len(frag_strings[i])\n                        frag_chars[i] = frag_chars[i].union(set(list(g)))"),
       rule='C01-REX-EVIDENCE', key='frag_chars'),
+    M('C01', 'pandas-rex-hook-drops-empty-strings', E(PC, "            return rexpy.extract(values, seed=None)", "            return rexpy.extract(values, remove_empties=True, seed=None)"),
+      rule='C01-REXHOOK', key='find_rexes'),
 ]
